@@ -73,6 +73,26 @@ Theorem C26_remove_only_iff : forall id sn fr o,
   fr = FTree 0 /\ r_keep_empty o = false /\ r_dry o = false.
 Proof. exact rewrite_remove_only_iff. Qed.
 
+(* complete decision table over commands and items, incl. handleUnreadableSnapshotFile: a snapshot file is
+   removed without a saved successor exactly when (a) its load failed, the command is repair snapshots
+   --forget (not dry-run) and its id was named, or (b) it was loaded and the result is an empty snapshot
+   that is not kept (not dry-run). Every other removal is covered by C26_old_or_new_at_every_prefix. *)
+Theorem C26_item_remove_only_iff : forall c it,
+  item_action c it = ARemoveOnly <->
+  exists o, c = CRewrite o /\ r_dry o = false /\
+    ((i_unreadable it = true /\ r_repair o = true /\ r_forget o = true /\ i_named it = true) \/
+     (i_unreadable it = false /\ i_fres it = FTree 0 /\ r_keep_empty o = false)).
+Proof. exact item_remove_only_iff. Qed.
+
+Theorem C26_plan_entry_without_successor : forall c its p,
+  In p (plan_of c its) -> p_new p = None ->
+  exists it, In it its /\ p_old p = i_old it /\ item_action c it = ARemoveOnly.
+Proof. exact plan_entry_without_successor. Qed.
+
+Theorem C26_unreadable_untouched : forall c it,
+  i_unreadable it = true -> item_action c it <> ARemoveOnly -> plan_of c [it] = [].
+Proof. exact unreadable_untouched. Qed.
+
 Theorem C26_dry_run_no_ops : forall id sn fr o,
   r_dry o = true ->
   rewrite_action id sn fr o = AErr \/ exists b, rewrite_action id sn fr o = ANone b.
@@ -105,6 +125,9 @@ Print Assumptions C26_original_and_tree_rewrite.
 Print Assumptions C26_tree_kept_unless_changed.
 Print Assumptions C26_original_first_in_chain_refuted.
 Print Assumptions C26_remove_only_iff.
+Print Assumptions C26_item_remove_only_iff.
+Print Assumptions C26_plan_entry_without_successor.
+Print Assumptions C26_unreadable_untouched.
 Print Assumptions C26_dry_run_no_ops.
 Print Assumptions C26_unmodified_no_ops.
 Print Assumptions C26_oracle_sound.
